@@ -1,7 +1,7 @@
 (* C14 - the property theorems, nothing else.  Each is closed by [exact] of a lemma proved in coq/Persist/*Proofs.v
    and followed by Print Assumptions. *)
 From Icv Require Import Base.Tac Persist.PsValue Persist.PsModel Persist.PsValueProofs
-  Persist.PsAtomicProofs Persist.PsRestoreProofs Persist.PsRoundtripProofs Persist.PsStateProofs Persist.PsModattrProofs Persist.PsFrameProofs Persist.PsSeqProofs.
+  Persist.PsAtomicProofs Persist.PsRestoreProofs Persist.PsRoundtripProofs Persist.PsStateProofs Persist.PsModattrProofs Persist.PsFrameProofs Persist.PsSeqProofs Persist.PsSpineProofs.
 From Coq Require Import NArith.
 Local Open Scope N_scope.
 
@@ -99,8 +99,8 @@ Print Assumptions C14_restore_frame.
    For EVERY history h of ModifyAttribute / RestoreAttribute calls on paths of P - the same path any number of times,
    succeeding or failing - in which no ModifyAttribute meets a dictionary at its path (negated signature of
    restore-dict-original), and for every list rs of restore calls on paths of P that covers the modified paths, in any
-   order, all reporting success: every path of P and every path incomparable with P reads exactly as configured, and
-   original_attributes is empty. *)
+   order (restores of listed paths always succeed, C14_restore_succeeds; failing ones change nothing): every path of P
+   and every path incomparable with P reads exactly as configured, and original_attributes is empty. *)
 Theorem C14_restore_sequence : forall fe P o0,
   (forall p p', In p P -> In p' P -> p <> p' -> ps_incomp p p') ->
   (forall p, In p P -> ps_cfg_field fe p) ->
@@ -111,13 +111,20 @@ Theorem C14_restore_sequence : forall fe P o0,
   let o := ps_run fe o0 h in
   (forall r, In r rs -> In (fst r) P) ->
   (forall k x, In (k, x) (ps_orig_dict o) -> In k (map fst rs)) ->
-  ps_run_ok fe o (ps_restores rs) = true ->
   let o' := ps_run fe o (ps_restores rs) in
   (forall p, In p P -> ps_get_attr p o' = ps_get_attr p o0) /\
   (forall q, (forall p, In p P -> ps_incomp p q) -> ps_get_attr q o' = ps_get_attr q o0) /\
   ps_orig_dict o' = [].
-Proof. exact ps_restore_sequence. Qed.
+Proof. exact ps_restore_sequence_total. Qed.
 Print Assumptions C14_restore_sequence.
+
+(* while a path is listed in original_attributes its intermediate dictionaries exist (invariant of every such history,
+   ps_spine_run), hence RestoreAttribute of a listed configuration attribute reports success *)
+Theorem C14_restore_succeeds : forall fe p now o,
+  ps_cfg_field fe p -> ps_dcontains p (ps_orig_dict o) = true -> ps_spine_attr p o ->
+  fst (ps_restore_attribute fe p true now o) = true.
+Proof. exact ps_restore_succeeds. Qed.
+Print Assumptions C14_restore_succeeds.
 
 Theorem C14_restore_dict_original_refuted :
   (* original value an empty dictionary: nothing recorded, restore is a no-op *)
